@@ -47,7 +47,7 @@ I64 = st.integers(-2 ** 63, 2 ** 63 - 1)
 TEXT = st.one_of(st.text(max_size=12), st.just(''), st.text(alphabet='aé€\U0001F600z', max_size=6), st.text(max_size=12),
                  st.text(alphabet='abcdefghij é', min_size=200, max_size=700))
 DBL = st.floats(allow_nan=False, allow_infinity=False)
-BIN = st.one_of(st.binary(max_size=40), st.binary(min_size=250, max_size=70000)).map(lambda b: b.hex())
+BIN = st.one_of(st.binary(max_size=40), st.binary(min_size=250, max_size=2000)).map(lambda b: b.hex())
 
 
 def _item():
